@@ -201,6 +201,7 @@ package operationparser
 //@   ensures err == nil && !batch && op.Type == operation.TypeUpdate ==> reqDelta(operationBuffer) != nil && mhCodeOK(reqDelta(operationBuffer).UpdateCommitment) && commitOf(updKey(reqSD(operationBuffer)), uint(mhCodeOf(reqDelta(operationBuffer).UpdateCommitment))) != reqDelta(operationBuffer).UpdateCommitment
 //@   ensures err == nil && op.Type == operation.TypeRecover ==> mhCodeOK(recCommit(reqSD(operationBuffer))) && commitOf(recKey(reqSD(operationBuffer)), uint(mhCodeOf(recCommit(reqSD(operationBuffer))))) != recCommit(reqSD(operationBuffer))
 //@   ensures err == nil && !batch && op.Type == operation.TypeRecover ==> reqDelta(operationBuffer) != nil && reqDelta(operationBuffer).UpdateCommitment != recCommit(reqSD(operationBuffer))
+//@   ensures err == nil && !batch && op.Type == operation.TypeCreate ==> reqDelta(operationBuffer) != nil && reqSuffixData(operationBuffer) != nil && reqDelta(operationBuffer).UpdateCommitment != reqSuffixData(operationBuffer).RecoveryCommitment
 //@   modifies tvCalls, tvFrom, tvUntil
 //
 //@ func (*Parser).Parse
@@ -208,6 +209,7 @@ package operationparser
 //@   ensures err == nil ==> len(operationBuffer) <= p.MaxOperationSize && r0 != nil
 //@   ensures err == nil && r0.Type == operation.TypeUpdate ==> reqDelta(operationBuffer) != nil && mhCodeOK(reqDelta(operationBuffer).UpdateCommitment) && commitOf(updKey(reqSD(operationBuffer)), uint(mhCodeOf(reqDelta(operationBuffer).UpdateCommitment))) != reqDelta(operationBuffer).UpdateCommitment
 //@   ensures err == nil && r0.Type == operation.TypeRecover ==> mhCodeOK(recCommit(reqSD(operationBuffer))) && commitOf(recKey(reqSD(operationBuffer)), uint(mhCodeOf(recCommit(reqSD(operationBuffer))))) != recCommit(reqSD(operationBuffer)) && reqDelta(operationBuffer) != nil && reqDelta(operationBuffer).UpdateCommitment != recCommit(reqSD(operationBuffer))
+//@   ensures err == nil && r0.Type == operation.TypeCreate ==> reqDelta(operationBuffer) != nil && reqSuffixData(operationBuffer) != nil && reqDelta(operationBuffer).UpdateCommitment != reqSuffixData(operationBuffer).RecoveryCommitment
 //@   modifies tvCalls, tvFrom, tvUntil
 //
 // "never a panic": GetCommitment / GetRevealValue on arbitrary bytes (zero-annotation safety obligations)
@@ -234,3 +236,6 @@ package operationparser
 //   the DID handed back is literally the input (short form) or the input up to the separator in front of the initial
 //   state (long form): the caller compares its suffix text with the suffix derived from the initial state
 //@   ensures err == nil ==> did == shortOrLongFormDID || (exists k int :: 0 <= k && k < len(shortOrLongFormDID) && did == shortOrLongFormDID[0:k])
+//   long form: the DID is everything in front of the LAST separator (the initial state is what follows it), so a text
+//   with extra segments between the unique portion and the initial state keeps them in the DID and cannot match
+//@   ensures err == nil && req != nil ==> did == shortOrLongFormDID[0:strLastIndex(shortOrLongFormDID, ":")]
